@@ -53,6 +53,10 @@ class C02Facade(Harness):
             ax = 0 if shape[0] == 3 else 1
             for wk in ("none", "int"):
                 yield (f"rows-N{n}-S{_shape_name(shape)}-iTF-w{wk}-g{ax}-three", dict(N=n, shape=list(shape), inc=[True, False], weights=wk, form="rows", gap=ax, spec="static", nan=False))
+        # per-axis (n, 2) arrays of left / right pairs with a gap (plain arrays, not binning objects)
+        for form in ("rows", "h2"):
+            for gap in (0, 1):
+                yield (f"{form}-N2-S2x2-pairs-array-g{gap}", dict(N=2, shape=[2, 2], inc=[True, True], weights="int", form=form, gap=gap, spec="pairs_array", nan=False))
         # edge arrays + per-axis keyword lists / a scalar keyword (includes_right_edge given through the facade, not a binning object)
         for inc in ("TF", "FT", "FF"):
             for form in ("rows", "h2"):
@@ -94,6 +98,8 @@ class C02Facade(Harness):
         if p["spec"] == "edges_kw":
             bins = [np.asarray([x["l"][k][0]] + list(x["r"][k])) for k in range(D)]
             kw["includes_right_edge"] = p["inc"][0] if len(set(p["inc"])) == 1 else list(p["inc"])
+        elif p["spec"] == "pairs_array":
+            bins = [np.asarray([[l, r] for l, r in zip(x["l"][k], x["r"][k])]) for k in range(D)]
         elif p["spec"] == "edges":
             bins = [np.asarray([x["l"][k][0]] + list(x["r"][k])) for k in range(D)]
         else:
